@@ -871,7 +871,11 @@ func runRacePass(h *hz.H) {
 	}
 	h.Rep.Bounds["partB_operation_tuples"] = len(tuples)
 	h.Rep.Bounds["partB_repetitions_per_tuple"] = reps
+	onlyType := os.Getenv("VERIF_RACE_ONLY_TYPE") // replay of a result violation: that type's tuples only
 	for _, md := range types {
+		if onlyType != "" && string(md.FullName()) != onlyType {
+			continue
+		}
 		for variant := 0; variant < 6; variant++ {
 			if variant == 5 && !hasAnyField(md) {
 				continue
@@ -918,7 +922,9 @@ func runRacePass(h *hz.H) {
 			}
 		}
 	}
-	crowd(h)
+	if onlyType == "" {
+		crowd(h)
+	}
 	h.Sample(map[string]interface{}{"part": "B", "types": len(types), "operations": len(all), "tuples": len(tuples), "repetitions": reps})
 }
 
@@ -936,6 +942,11 @@ func mergeRacePass(h *hz.H, only *c11case) {
 	rep := filepath.Join(dir, fmt.Sprintf("race-report-%d.json", os.Getpid()))
 	cmd := exec.Command(bin, "-prop", "C11", "-tier", h.Tier, "-report", rep)
 	cmd.Env = append(os.Environ(), "GORACE=halt_on_error=0 history_size=3 log_path="+logBase)
+	onlyType := ""
+	if only != nil && only.Type != "" && only.Race == "" {
+		onlyType = only.Type
+		cmd.Env = append(cmd.Env, "VERIF_RACE_ONLY_TYPE="+onlyType)
+	}
 	out, err := cmd.CombinedOutput()
 	if _, ok := err.(*exec.ExitError); err != nil && !ok {
 		h.InternalError("cannot run the race twin: " + err.Error())
@@ -966,6 +977,9 @@ func mergeRacePass(h *hz.H, only *c11case) {
 	// cold starts: one fresh process per type whose first fast-path calls are concurrent
 	cold := 0
 	for _, md := range targetTypes() {
+		if onlyType != "" && string(md.FullName()) != onlyType {
+			continue
+		}
 		crep := filepath.Join(dir, fmt.Sprintf("race-cold-%d-%d.json", os.Getpid(), cold))
 		c := exec.Command(bin, "-prop", "C11", "-tier", h.Tier, "-report", crep)
 		c.Env = append(os.Environ(), "GORACE=halt_on_error=0 history_size=3 log_path="+logBase, "VERIF_COLD_TYPE="+string(md.FullName()))
